@@ -16,6 +16,7 @@ import (
 	sdk "github.com/cosmos/cosmos-sdk/types"
 	authsigning "github.com/cosmos/cosmos-sdk/x/auth/signing"
 	authtypes "github.com/cosmos/cosmos-sdk/x/auth/types"
+	distrtypes "github.com/cosmos/cosmos-sdk/x/distribution/types"
 	govv1 "github.com/cosmos/cosmos-sdk/x/gov/types/v1"
 	"github.com/cosmos/cosmos-sdk/x/authz"
 	upgradetypes "github.com/cosmos/cosmos-sdk/x/upgrade/types"
@@ -617,8 +618,16 @@ func (e *Exec) endAndCommitR0(blk *Block, rec *BlockRec, isUpgradeBlock bool) {
 				continue
 			}
 			govTouched[sdk.AccAddress(authtypes.NewModuleAddress("gov")).String()] = true
+			govTouched[sdk.AccAddress(authtypes.NewModuleAddress("distribution")).String()] = true // community-pool spends of a passing proposal
 			for _, d := range r0.App.GovKeeper.GetDeposits(ctx, p.Id) {
 				govTouched[d.Depositor] = true
+			}
+			if msgs, err := p.GetMsgs(); err == nil {
+				for _, m := range msgs {
+					if sp, ok := m.(*distrtypes.MsgCommunityPoolSpend); ok {
+						govTouched[sp.Recipient] = true
+					}
+				}
 			}
 		}
 	}()
@@ -637,7 +646,30 @@ func (e *Exec) endAndCommitR0(blk *Block, rec *BlockRec, isUpgradeBlock bool) {
 	}
 	ctx = r0.DeliverCtx()
 	post := e.bankSnapshot(ctx, r0.Node)
-	e.checkBurn(h, burnAddr, spendable, pre, post, ctx, r0.Node, govTouched)
+	// coins that reach the burn address inside this EndBlock (a passing governance proposal spends from the community
+	// pool or the gov account to it) are, with the application's EndBlocker order, burnt in the same EndBlock
+	inflow := sdk.Coins{}
+	for _, ev := range endRes.Events {
+		if ev.Type != "coin_received" {
+			continue
+		}
+		var recv, amt string
+		for _, a := range ev.Attributes {
+			switch a.Key {
+			case "receiver":
+				recv = a.Value
+			case "amount":
+				amt = a.Value
+			}
+		}
+		if recv == burnAddr.String() {
+			if cs, err := sdk.ParseCoinsNormalized(amt); err == nil {
+				inflow = inflow.Add(cs...)
+				e.Stats.Inc("probe.burn.inflow_during_endblock")
+			}
+		}
+	}
+	e.checkBurn(h, burnAddr, spendable.Add(inflow...), pre, post, ctx, r0.Node, govTouched)
 	if hs := CustomDumpHashes(r0.DeliverStores()); !sameHashes(preHashes, hs) {
 		e.viol("C17", "custom_state.changed_in_endblock", "", "custom stores changed during EndBlock(%d): %v", h, changedStores(preHashes, hs))
 		e.resync(r0.DeliverStores())
